@@ -290,9 +290,91 @@ static Scenario make_c05(std::map<std::string, long> const& cfg)
   return sc;
 }
 
+// ---- C05 with queue growth: one thread fills its first buffer exactly and continues in a grown one while the backend's
+// read pass ends on the hard limit at the end of the first buffer; another thread logs a later statement
+static Scenario make_c05_grow(std::map<std::string, long> const&)
+{
+  using F = FrontendImpl<OptUB>;
+  using L = LoggerImpl<OptUB>;
+  Scenario sc;
+  auto lg = std::make_shared<std::vector<L*>>();
+  sc.setup = [lg](World& w, Scenario const& s)
+  {
+    w.backend_options.log_timestamp_ordering_grace_period = std::chrono::microseconds{s.c("grace", 1)};
+    w.backend_options.transit_event_buffer_initial_capacity = static_cast<size_t>(s.c("tbuf", 4));
+    w.backend_options.transit_events_soft_limit = static_cast<size_t>(s.c("soft", 4));
+    w.backend_options.transit_events_hard_limit = static_cast<size_t>(s.c("hard", 4));
+    auto s1 = std::make_shared<RecSink>(1);
+    lg->push_back(F::create_or_get_logger("A", {s1}, PatternFormatterOptions{"%(message)"}, ClockSourceType::System));
+    lg->push_back(F::create_or_get_logger("B", {s1}, PatternFormatterOptions{"%(message)"}, ClockSourceType::System));
+  };
+  sc.frontends.push_back(
+    [lg](World& w, Scenario const& s)
+    {
+      // 64-byte statements: four fill the 256-byte initial buffer exactly, the following ones go to a grown buffer
+      point();
+      for (int q = 1; q <= s.c("na", 6); ++q)
+      {
+        log_id((*lg)[0], 1, q, 20);
+        w.events.push_back("done 1." + std::to_string(q));
+        if (s.c("points", 0)) point();
+      }
+      point();
+    });
+  sc.frontends.push_back(
+    [lg](World& w, Scenario const& s)
+    {
+      point();
+      if (s.c("flush", 0))
+      {
+        // C06 variant: the second thread flushes; everything completed before must be at the sink when it returns
+        std::vector<std::string> must;
+        for (auto const& e : w.events)
+          if (e.rfind("done ", 0) == 0) must.push_back(e.substr(5));
+        advance(2000);
+        (*lg)[1]->flush_log();
+        std::set<std::string> seen;
+        for (auto const* r : w.of_sink(1)) seen.insert(id_of(r->msg));
+        for (auto const& id : must)
+          if (!seen.count(id))
+            w.fail("flush-returned-before-statement-written", "flush_log() returned while statement " + id + " (completed before the flush was invoked) is not at the sink");
+        w.events.push_back("flush 2 returned");
+      }
+      else
+      {
+        log_id((*lg)[1], 2, 1);
+        w.events.push_back("done 2.1");
+      }
+      point();
+    });
+  sc.check = [](World& w, Scenario const&)
+  {
+    std::map<int, std::vector<std::string>> exp;
+    for (auto const& e : w.events)
+      if (e.rfind("done ", 0) == 0)
+      {
+        std::string id = e.substr(5);
+        exp[atoi(id.c_str())].push_back(id);
+      }
+    check_delivery(w, 1, exp, "lost-duplicated-or-reordered");
+    uint64_t prev = 0;
+    std::string prev_id;
+    for (auto const* r : w.of_sink(1))
+    {
+      if (r->ts < prev)
+        w.fail("out-of-timestamp-order", "statement " + id_of(r->msg) + " (ts " + std::to_string(r->ts) + ") written after " + prev_id + " (ts " + std::to_string(prev) +
+                                           ") although every statement was enqueued at its timestamp");
+      prev = r->ts;
+      prev_id = id_of(r->msg);
+    }
+  };
+  return sc;
+}
+
 int main(int argc, char** argv)
 {
   std::map<std::string, opx::ScenarioFactory> table;
+  table["c05.grow"] = make_c05_grow;
   table["c06.ub"] = make_c06<OptUB>;
   table["c06.bd"] = make_c06<OptBD>;
   table["c05.ub"] = make_c05<OptUB>;
